@@ -70,6 +70,9 @@ class OpenCtx(BaseCtx):
                 if self.stage == "established":
                     self.stats["gen:late_close_during_next_session"] += 1
                 return ["cdone", k]
+        if getattr(self, "gen_restart", False):
+            self.gen_restart = False
+            return ["rest", "GET", base.URL + "manual-start", "ok"]
         if self.stage == "wait_connect":
             if self.sessions_left <= 0:
                 return None
@@ -143,7 +146,12 @@ class OpenCtx(BaseCtx):
                     return ["fire", rng.randrange(len(w.reactor.due()))]
             self.stage = "wait_connect"
             self.sessions_left -= 1
-            how = rng.pick(["close", "reset", "notif", "cease"])
+            how = rng.pick(["close", "reset", "notif", "cease", "operator"])
+            if how == "operator":
+                # the operator stops the peer and starts it again at once
+                self.gen_restart = True
+                self.stats["gen:session_ended_by_operator_stop_start"] += 1
+                return ["rest", "GET", base.URL + "manual-stop", "ok"]
             if how == "notif":
                 return ["send", k, rp.encode_notification(6, 2).hex(), []]
             if how == "cease":
@@ -177,7 +185,7 @@ class OpenCtx(BaseCtx):
         if variant == "badver":
             version = rng.pick([3, 5, 0])
         elif variant == "badas":
-            asn = rng.pick([a for a in ASNS + [asn % 65000 + 1] if a != cfg["remote_as"]])
+            asn = rng.pick([a for a in ASNS + [asn % 65000 + 1, 23456, 23456] if a != cfg["remote_as"]])
             caps = [c for c in caps if c[0] != 65]
             if asn > 65535 or rng.chance(0.5):
                 caps.append(rp.cap_as4(asn))
@@ -223,6 +231,12 @@ class OpenCtx(BaseCtx):
             attrs["local_pref"] = 100
         if rng.chance(0.3):
             attrs["aggregator"] = (rng.pick(pool), "10.9.9.9")
+        if "aggregator" not in attrs and rng.chance(0.08):
+            # an AGGREGATOR sized for the OTHER AS width than this session negotiated: malformed here, whatever
+            # its size would mean elsewhere
+            raw = rp.encode_attrs(attrs, as4) + rp.attr_tlv(0xC0, 7, (b"\x00\x00\xfd\xe9" if not as4 else b"\xfd\xe9") + bytes([10, 9, 9, 9]))
+            self.stats["gen:aggregator_of_other_width"] += 1
+            return rp.encode_update([], None, [rng.pick(base.PREFIX_POOL)], raw_attrs=raw)
         return rp.encode_update([], attrs, [rng.pick(base.PREFIX_POOL)], as4=as4)
 
     # ------------------------------------------------------------------ oracle
@@ -399,6 +413,16 @@ class OpenCtx(BaseCtx):
         reps = [h for h in handler if h[0] in ("update_received", "on_update_error")]
         self.stats["updates_checked"] += 1
         mode = "4-octet" if as4 else "2-octet"
+        agg = d["attrs"].get("aggregator")
+        if isinstance(agg, tuple) and agg and agg[0] == "bad":
+            # AGGREGATOR of a size that does not fit the negotiated AS width: not a good attribute in this session
+            self.stats["aggregator_of_other_width_checked"] += 1
+            for r in reps:
+                if r[0] == "update_received" and hostile_get(hostile_get(r[2], "attr"), 7) is not None:
+                    raise Violation("C05", "as-width", "%s/aggregator-of-other-width-accepted" % mode,
+                                    "an AGGREGATOR of %d octets in a %s session was delivered as %s"
+                                    % (len(agg[1]) // 2, mode, hostile_get(hostile_get(r[2], "attr"), 7)))
+            return
         if len(reps) != 1 or reps[0][0] != "update_received":
             raise Violation("C05", "as-width", "%s/peer_as4=%s/agent_as4=%s/not-decoded" % (mode, self.cur["peer_as4"], self.cur["agent_as4"]),
                             "UPDATE with %s AS_PATH %s (peer advertised cap 65: %s, agent advertised it: %s) was reported as %s"
